@@ -236,7 +236,10 @@ impl FileHasher<'_> {
         // with a different name, directory and timestamps.
         let transform_id = transform.as_ref().map(|t| {
             let mode = if t.in_place { "in-place:" } else { "" };
-            let input = if t.copy { "" } else { "no-copy:" };
+            let input = match t.sees_original_path() {
+                true => "no-copy:",
+                false => "",
+            };
             format!("{}{}{}", mode, input, t.command_str)
         });
         let cache = HashCache::open_default(transform_id.as_deref(), algorithm)?;
@@ -321,7 +324,10 @@ impl FileHasher<'_> {
         // Without `copy` the program is given the path of the file itself, so its output may
         // depend on that path. The cached results are found by the file identifier,
         // they would survive renaming or moving the file.
-        let cache = self.cache.as_ref().filter(|_| transform.copy);
+        let cache = self
+            .cache
+            .as_ref()
+            .filter(|_| !transform.sees_original_path());
         let metadata = cache.and_then(|_| FileMetadata::new(chunk.path).ok());
         let metadata = metadata.as_ref();
         let key = cache
